@@ -82,6 +82,8 @@ def main():
         toks = ['<unreadable>', text]
         err = str(e)
     v = holds(spec, toks) if err is None else False
+    if spec.get('sleep_ms'):
+        time.sleep(spec['sleep_ms'] / 1000.0)
     d = spec.get('delay_ms', 0)
     if d:
         time.sleep((h(spec.get('delay_seed', 0), *toks) % (d + 1)) / 1000.0)
